@@ -1641,7 +1641,8 @@ class ShortBinString(DynamicLength, ConstantOpcode):
     length_bytes = 1
 
     def encode_body(self) -> bytes:
-        return repr(self.arg).encode("utf-8")
+        # the payload is the raw (8-bit) string itself, not a quoted literal
+        return self.arg.encode("latin-1")
 
     @classmethod
     def validate(cls, obj):
@@ -1657,7 +1658,8 @@ class BinString(DynamicLength, ConstantOpcode):
     signed = True
 
     def encode_body(self) -> bytes:
-        return repr(self.arg).encode("utf-8")
+        # the payload is the raw (8-bit) string itself, not a quoted literal
+        return self.arg.encode("latin-1")
 
     @classmethod
     def validate(cls, obj):
